@@ -146,7 +146,11 @@ func (ctxt *CredentialHelperContext) SetStateFields(fields []string) {
 // It returns an error if any configuration was invalid, or otherwise
 // un-useable.
 func (ctxt *CredentialHelperContext) GetCredentialHelper(helper CredentialHelper, u *url.URL) CredentialHelperWrapper {
-	rawurl := fmt.Sprintf("%s://%s%s", u.Scheme, u.Host, u.Path)
+	// The URL-scoped configuration is looked up by parsing this string again:
+	// use the escaped form of the path, or a path with a decoded control
+	// character fails to parse and every credential.<url>.* setting
+	// (protectProtocol among them) is silently ignored.
+	rawurl := fmt.Sprintf("%s://%s%s", u.Scheme, u.Host, u.EscapedPath())
 	input := Creds{"protocol": []string{u.Scheme}, "host": []string{u.Host}}
 	if u.User != nil && u.User.Username() != "" {
 		input["username"] = []string{u.User.Username()}
